@@ -10,7 +10,8 @@ C42 — executable model of `porepy/compositional/utils.py` (core Lean only, exa
   compute_saturations               ↦ `computeSaturations` (shape check, two "more than one phase saturated" checks)
 
 The only place where the model does not literally repeat the code is `np.linalg.solve(mat, rhs)`: the model
-returns the closed form `sat` (s_j = (y_j/ρ_j) / Σ_k y_k/ρ_k).  `codedMat` / `codedRhs` are the matrix and right-hand
+returns the explicit solution `codedSolution`, which is the closed form `sat` (s_j = (y_j/ρ_j) / Σ_k y_k/ρ_k) whenever the
+fractions handed to the solve sum to one.  `codedMat` / `codedRhs` are the matrix and right-hand
 side exactly as the code assembles them; Props proves that `sat` solves that system and that the system has no other
 solution, i.e. `solve` can only return `sat` (up to rounding).
 
@@ -68,6 +69,19 @@ def fillDiagonal0 (M : List (List Rat)) : List (List Rat) := M.zipIdx.map fun p 
 
 def codedMat (y rho : List Rat) : List (List Rat) := fillDiagonal0 (rawMat y rho)
 
+/-- `Σ_j ρ_j (1 - y_j)` -/
+def pSum (y rho : List Rat) : Rat := (List.zipWith (fun yj rj => rj * (1 - yj)) y rho).sum
+
+/-- what `np.linalg.solve(mat, rhs)` returns in exact arithmetic, also when the fractions handed to it do NOT sum to one
+    (this happens when phases with `0 < y_j <= eps` were dropped): with the defect `d = 1 - Σy`, `P = Σ ρ_j (1 - y_j)`,
+    `s_j = R · (y_j/ρ_j + (1 - y_j) d / P)`, `R = 1 / (Σ y_k/ρ_k + (n - 1 - Σy) d / P)`.
+    For `d = 0` this is the closed form `sat` (Props: `codedSolution_eq_sat`); Props proves that it solves the coded system. -/
+def codedSolution (y rho : List Rat) : List Rat :=
+  let d := 1 - y.sum
+  let P := pSum y rho
+  let R := 1 / (wsum y rho + ((y.length : Rat) - 1 - y.sum) * d / P)
+  (List.zipWith (fun yj rj => yj / rj + (1 - yj) * d / P) y rho).map (R * ·)
+
 /-! ### saturations: `_compute_saturations` branch for branch -/
 
 /-- number of phases with `y >= 1 - eps` -/
@@ -110,7 +124,7 @@ def satCell (y rho : List Rat) (eps : Rat) : Except Err (List Rat) :=
     | [_, y1], [r0, r1] => .ok (twoPhase y1 r0 r1)
     | _, _ =>
       let m := notVanished y eps
-      .ok (scatter m (sat (select m y) (select m rho)))
+      .ok (scatter m (codedSolution (select m y) (select m rho)))
 
 /-- `_compute_saturations_parallel`: cell by cell -/
 def satCells : List (List Rat) → List (List Rat) → Rat → Except Err (List (List Rat))
